@@ -40,7 +40,7 @@ class P(vlib.Prop):
         "index identity is object identity (Go interface values holding pointers), modelled as positions in the universe",
         "index cache: the bytes of an index file and their parse are abstract (any parser), a file's modification time is what os.Stat reports; c08_index_cache_fresh assumes every rewrite moves it strictly forward (C08-F5 is what happens otherwise)",
         "slices.SortFunc on fewer than 12 elements is a stable insertion sort (Go 1.23 pdqsort), so equal-named indexes keep the map-iteration order of the concatenation in the trie path of the disqualification cache (a miss more or less; the answers do not depend on it since fix 3541d7b)",
-        "the disqualification cache's two-level lookup (trie path, then the entry with an equal grouping) is modelled as the one-level cache of Model/Caches.v keyed by the pair (CachesGrouped.grouping_key); equal keys imply the same Go map (proved), the converse is tested",
+        "the disqualification cache's two-level lookup (trie path, then the entry with an equal grouping) is modelled as the one-level cache of Model/Caches.v keyed by the pair (CachesGrouped.grouping_key); equal keys <-> the same trie path and the same Go map (both directions proved: c08_grouping_key_compatible, c08_grouping_key_same_map_same_key)",
     )
     level_text = ("Theorems about an executable model of the cache layer over an explicit store (references for selected / nameMap / installIfMap and their slices / "
                   "disqualification maps; the two tries; clone allocates exactly what PkgResolver.Clone and maps.Clone copy): c08_frame, c08_history_independent for every "
